@@ -211,11 +211,18 @@ def classify(before, after, res_before, res_after, compress=False):
         before = dict(before, results_log={k: prune(v) for k, v in before["results_log"].items()})
         after = dict(after, results_log={k: prune(v) for k, v in after["results_log"].items()})
     kb, ka = list(before["results_log"]), list(after["results_log"])
-    if kb != ka:
+    if sorted(kb) != sorted(ka):
         return ("step-keys-not-restored", f"results_log steps before {kb} after {ka}")
-    kb, ka = list(before["settings_log"]), list(after["settings_log"])
-    if kb != ka:
-        return ("settings-steps-not-restored", f"settings_log steps before {kb} after {ka}")
+    kb2, ka2 = list(before["settings_log"]), list(after["settings_log"])
+    if sorted(kb2) != sorted(ka2):
+        return ("settings-steps-not-restored", f"settings_log steps before {kb2} after {ka2}")
+    order_only = None
+    if kb != ka or kb2 != ka2:
+        # the same steps in another dictionary order: two Python dictionaries with the same items are equal -- whether the order matters
+        # depends on its consumers (the replay: C20 compares the continuation; the served results: compared below).  Not a failing input
+        # by itself: reported without one (key `correspondence…`) unless something observable differs as well.
+        order_only = ("correspondence-log-order", f"the logs come back with their steps in another dictionary order: results_log {kb} -> {ka}, "
+                                                  f"settings_log {kb2} -> {ka2} (same entries)")
     if before["step"] != after["step"]:
         return ("session-clock-not-restored", f"step before {before['step']} after {after['step']}")
     for k in before["settings_log"]:                                  # entry by entry
@@ -228,7 +235,7 @@ def classify(before, after, res_before, res_after, compress=False):
         return ("session-fields-not-restored", f"fields {diff} differ")
     if res_before != res_after:
         return ("session-results-differ", f"session-results before {res_before} after {res_after}")
-    return None
+    return order_only
 
 
 # ------------------------------------------------------------------ one case on the real code
@@ -1359,7 +1366,8 @@ def _run(chk, base):
     for key, (case, viol) in list(viol_by_key.items())[:6]:
         small = shrink_case(case, key, base)
         v2 = [v for v in run_case(small, base)[2] if v[0] == key] or [v for v in viol if v[0] == key]
-        chk.add_finding(key, v2[0][1], {"case": small, "violations": [list(v) for v in v2]})
+        chk.add_finding(key, v2[0][1], {"case": small, "violations": [list(v) for v in v2], "correspondence": key if key.startswith("correspondence") else None},
+                        found_input=not key.startswith("correspondence"))
     if not facts.get("compressIsPure", True):
         chk.add_finding("compress-not-pure", "the compressed form of a log depends on what was compressed before in the process: "
                         + facts.get("compressIsPure_detail", ""), {"purity": {"A": [{str(k): v for k, v in PURE_A.items()}],
